@@ -140,6 +140,62 @@ pub closed spec fn rights_wf(m: Map<String, Vec<EntityRight>>) -> bool {
 /// every history list of the group is date-ordered and every right is normalised (all-rows implies own-rows)
 pub closed spec fn auth_wf(a: Authorisation) -> bool { users_wf(a.users@) && users_wf(a.user_admins@) && rights_wf(a.rights@) }
 
+/// the entry is in the history of its key / of its entity
+pub closed spec fn listed_user(m: Map<Vec<u8>, Vec<User>>, u: User) -> bool { m.contains_key(u.verifying_key) && m[u.verifying_key]@.contains(u) }
+pub closed spec fn listed_right(m: Map<String, Vec<EntityRight>>, e: EntityRight) -> bool { m.contains_key(e.entity) && m[e.entity]@.contains(e) }
+/// what load_user_from_json decodes from one element of the stored array (its postcondition)
+pub open spec fn reloaded_user(v: serde_json::Value, u: User) -> bool {
+    Some(u.date) == v.s_obj()->Some_0.s_get(MODIFICATION_DATE_FIELD@)->Some_0.s_i64() && Some(u.enabled) == v.s_obj()->Some_0.s_get("enabled"@)->Some_0.s_bool()
+}
+/// the stored array element was decoded and its entry is in the map (the `exists` is hidden in a spec function: nested under a
+/// `forall` in a loop invariant it is not re-established at loop exit, DESIGN section 10)
+pub open spec fn entry_reloaded(v: serde_json::Value, m: Map<Vec<u8>, Vec<User>>) -> bool { exists|u: User| reloaded_user(v, u) && listed_user(m, u) }
+/// the first `n` stored entries are reloaded into `m`
+pub open spec fn prefix_reloaded(arr: Seq<serde_json::Value>, n: int, m: Map<Vec<u8>, Vec<User>>) -> bool {
+    forall|i: int| 0 <= i < n ==> #[trigger] entry_reloaded(arr[i], m)
+}
+/// no anchor in the loop bodies: this lemma fires on the loop invariant and on the postconditions of load_user_from_json and of the add_* mutators
+broadcast proof fn lemma_prefix_reloaded_step(arr: Seq<serde_json::Value>, n: int, old_m: Map<Vec<u8>, Vec<User>>, new_m: Map<Vec<u8>, Vec<User>>, user: User)
+    requires #[trigger] users_appended(old_m, new_m, user), #[trigger] prefix_reloaded(arr, n, old_m), #[trigger] reloaded_user(arr[n], user),
+    ensures prefix_reloaded(arr, n + 1, new_m),
+{
+    lemma_users_append_lists(old_m, new_m, user);
+    assert forall|i: int| 0 <= i < n + 1 implies #[trigger] entry_reloaded(arr[i], new_m) by {
+        if i < n {
+            assert(entry_reloaded(arr[i], old_m));
+            let u = choose|u: User| reloaded_user(arr[i], u) && listed_user(old_m, u);
+            assert(listed_user(new_m, u));
+        }
+    }
+}
+broadcast proof fn lemma_users_append_lists(old_m: Map<Vec<u8>, Vec<User>>, new_m: Map<Vec<u8>, Vec<User>>, user: User)
+    requires #[trigger] users_appended(old_m, new_m, user),
+    ensures listed_user(new_m, user), forall|v: User| #[trigger] listed_user(old_m, v) ==> listed_user(new_m, v),
+{
+    let n = new_m[user.verifying_key]@;
+    let o = user_list(old_m, user.verifying_key);
+    assert(n == o.push(user));
+    assert(n[o.len() as int] == user);
+    assert forall|v: User| #[trigger] listed_user(old_m, v) implies listed_user(new_m, v) by {
+        if v.verifying_key == user.verifying_key {
+            let j = choose|j: int| 0 <= j < o.len() && o[j] == v; assert(n[j] == v);
+        } else { assert(old_m.contains_key(v.verifying_key)); }
+    }
+}
+broadcast proof fn lemma_rights_append_lists(old_m: Map<String, Vec<EntityRight>>, new_m: Map<String, Vec<EntityRight>>, right: EntityRight)
+    requires #[trigger] rights_appended(old_m, new_m, right),
+    ensures listed_right(new_m, right), forall|v: EntityRight| #[trigger] listed_right(old_m, v) ==> listed_right(new_m, v),
+{
+    let n = new_m[right.entity]@;
+    let o = right_list(old_m, right.entity);
+    assert(n == o.push(right));
+    assert(n[o.len() as int] == right);
+    assert forall|v: EntityRight| #[trigger] listed_right(old_m, v) implies listed_right(new_m, v) by {
+        if v.entity == right.entity {
+            let j = choose|j: int| 0 <= j < o.len() && o[j] == v; assert(n[j] == v);
+        } else { assert(old_m.contains_key(v.entity)); }
+    }
+}
 broadcast proof fn lemma_users_append_wf(old_m: Map<Vec<u8>, Vec<User>>, new_m: Map<Vec<u8>, Vec<User>>, user: User)
     requires users_wf(old_m), #[trigger] users_appended(old_m, new_m, user), last_date_le(user_list(old_m, user.verifying_key), user.date),
     ensures users_wf(new_m),
@@ -215,46 +271,58 @@ pub closed spec fn auth_shape(v: serde_json::Value) -> bool {
         requires user_shape(*user_value),
         ensures
             // [reload_user_fields] the reloaded entry carries the stored date and enabled flag
-            r is Ok ==> Some(r->Ok_0.date) == user_value.s_obj()->Some_0.s_get(MODIFICATION_DATE_FIELD@)->Some_0.s_i64()
-                && Some(r->Ok_0.enabled) == user_value.s_obj()->Some_0.s_get("enabled"@)->Some_0.s_bool(),
+            r is Ok ==> reloaded_user(*user_value, r->Ok_0),
 //@ end
 
 //@ extract src/database/room.rs :: fn load_auth_from_json
 //@ result r
 //@ attr #[verifier::loop_isolation(false)]
 //@ insert body-start
-    broadcast use {lemma_users_append_wf, lemma_rights_append_wf};   // the representation invariant follows every add_* call, whatever the code around the call looks like
-//@ insert before-stmt "authorisation.add_user("
-            let ghost auth_before = authorisation;
-//@ insert after-stmt "authorisation.add_user("
-            // [reloaded_user_entry_accepted_or_reload_refused]{C10} the reload goes on only when the mutator accepted the stored entry: a refusal (an entry older than the key's last one) is propagated, never skipped
-            assert(exists|u: User| #[trigger] users_appended(auth_before.users@, authorisation.users@, u));
-//@ insert before-stmt "authorisation.add_user_admin("
-            let ghost auth_before = authorisation;
-//@ insert after-stmt "authorisation.add_user_admin("
-            // [reloaded_user_admin_entry_accepted_or_reload_refused]{C10}
-            assert(exists|u: User| #[trigger] users_appended(auth_before.user_admins@, authorisation.user_admins@, u));
+    broadcast use {lemma_users_append_wf, lemma_rights_append_wf, lemma_users_append_lists, lemma_rights_append_lists, lemma_prefix_reloaded_step};   // the representation invariant follows every add_* call, whatever the code around the call looks like
 //@ insert before-stmt "authorisation.add_right("
             let ghost auth_before = authorisation;
 //@ insert after-stmt "authorisation.add_right("
             // [reloaded_right_entry_accepted_or_reload_refused]{C10}
             assert(exists|e: EntityRight| #[trigger] rights_appended(auth_before.rights@, authorisation.rights@, e));
+//@ insert before-stmt "let user_admin_array"
+    let ghost users1 = authorisation.users;
+    let ghost m0 = value.s_obj()->Some_0;
+    assert(m0.s_get(AUTH_USER_FIELD@)->Some_0.s_arr() is Some ==> forall|i: int| 0 <= i < m0.s_get(AUTH_USER_FIELD@)->Some_0.s_arr()->Some_0.len() ==>
+        #[trigger] entry_reloaded(m0.s_get(AUTH_USER_FIELD@)->Some_0.s_arr()->Some_0[i], users1@));
+//@ insert before-stmt "let right_array"
+    let ghost admins2 = authorisation.user_admins;
+    assert(m0.s_get(AUTH_USER_ADMIN_FIELD@)->Some_0.s_arr() is Some ==> forall|i: int| 0 <= i < m0.s_get(AUTH_USER_ADMIN_FIELD@)->Some_0.s_arr()->Some_0.len() ==>
+        #[trigger] entry_reloaded(m0.s_get(AUTH_USER_ADMIN_FIELD@)->Some_0.s_arr()->Some_0[i], admins2@));
 //@ rewrite E16 "\"authorisation\"\.to_string\(\)" => "fmt_stub()" x1
 //@ rewrite E16 "(?s)\.as_str\(\)\s*\.unwrap\(\)\s*\.to_string\(\);" => ".as_str().unwrap().to_string();" x1
 //@ loop "for user_value in user_array" #1 iter it
             invariant auth_wf(authorisation), authorisation.id == id,
                 all_user_shape(user_array@),
+                it.seq().len() == user_array@.len(), forall|i: int| 0 <= i < it.seq().len() ==> *(#[trigger] it.seq()[i]) == user_array@[i],
+                // [every_stored_user_entry_is_reloaded]{C10}
+                prefix_reloaded(user_array@, it.index@ as int, authorisation.users@),
 //@ loop "for user_value in user_admin_array" iter it
             invariant auth_wf(authorisation), authorisation.id == id,
-                all_user_shape(user_admin_array@),
+                all_user_shape(user_admin_array@), authorisation.users == users1,
+                it.seq().len() == user_admin_array@.len(), forall|i: int| 0 <= i < it.seq().len() ==> *(#[trigger] it.seq()[i]) == user_admin_array@[i],
+                // [every_stored_user_admin_entry_is_reloaded]{C10}
+                prefix_reloaded(user_admin_array@, it.index@ as int, authorisation.user_admins@),
 //@ loop "for right_value in right_array" iter it
             invariant auth_wf(authorisation), authorisation.id == id,
-                all_right_shape(right_array@),
+                all_right_shape(right_array@), authorisation.users == users1, authorisation.user_admins == admins2,
 //@ spec
         requires auth_shape(*value),
         ensures
             // [reloaded_group_well_formed]{C10} a group reloaded from storage satisfies the same representation invariant as one built live: every history list is date-ordered (entries are fed to add_* in stored order and refused otherwise) and every right is normalised
             r is Ok ==> auth_wf(r->Ok_0),
+            // [every_stored_entry_is_in_the_reloaded_group]{C10} every user and user-admin entry of the stored arrays is in the reloaded group, under its key, as decoded: the reload feeds every stored entry to the same mutators the live path uses - none is skipped (the mutators keep the order)
+            r is Ok ==> ({
+                let m = value.s_obj()->Some_0;
+                (m.s_get(AUTH_USER_FIELD@)->Some_0.s_arr() is Some ==> forall|i: int| 0 <= i < m.s_get(AUTH_USER_FIELD@)->Some_0.s_arr()->Some_0.len() ==>
+                    #[trigger] entry_reloaded(m.s_get(AUTH_USER_FIELD@)->Some_0.s_arr()->Some_0[i], r->Ok_0.users@))
+                && (m.s_get(AUTH_USER_ADMIN_FIELD@)->Some_0.s_arr() is Some ==> forall|i: int| 0 <= i < m.s_get(AUTH_USER_ADMIN_FIELD@)->Some_0.s_arr()->Some_0.len() ==>
+                    #[trigger] entry_reloaded(m.s_get(AUTH_USER_ADMIN_FIELD@)->Some_0.s_arr()->Some_0[i], r->Ok_0.user_admins@))
+            }),
 //@ end
 
 // ---------------------------------------------------------------- what a stored entry row (its JSON object, short field ids) denotes
